@@ -63,6 +63,17 @@ var agreeSnippets = []string{
 	`try { let v: float = "2.0".parse_json(); println(v); } catch e { println(e.message); }`,
 	`try { let v = "2.0".parse_json() as float; println(v); } catch e { println(e.message); }`,
 	`try { let v: float = "2".parse_json(); println(v); } catch e { println(e.message); }`,
+	// where a failed cast points
+	`try { let l: [?int] = [none, ?1, ?"s"]; println(l); } catch e { println(e.message); }`,
+	`try { let o = "{\"a\": [1, \"x\"], \"b\": {\"c\": [null, true]}}".parse_json() as { a: [int], b: { c: [?int] } }; println(o); } catch e { println(e.message); }`,
+	`try { let o = "{\"a\": [1], \"b\": {\"c\": [null, true, \"t\"]}}".parse_json() as { a: [int], b: { c: [?int] } }; println(o); } catch e { println(e.message); }`,
+	`try { let o = "[[1, [2, \"z\"]]]".parse_json() as [[?int]]; println(o); } catch e { println(e.message); }`,
+	`try { let o = "{\"k\": 1}".parse_json() as { k: ?str }; println(o); } catch e { println(e.message); }`,
+	`try { let o = "{\"k\": 1, \"z\": 2}".parse_json() as { k: int }; println(o); } catch e { println(e.message); }`,
+	`try { let o = "{\"k\": 1}".parse_json() as { k: int, m: int }; println(o); } catch e { println(e.message); }`,
+	`try { let o = "{\"k\": {\"x\": 1}}".parse_json() as { k: { x: int, y: int } }; println(o); } catch e { println(e.message); }`,
+	`try { let o = "[{\"k\": [null, {\"d\": \"s\"}]}]".parse_json() as [{ k: [?{ d: int }] }]; println(o); } catch e { println(e.message); }`,
+	`let o = "[1, 2.0, true, 0, 1.5]".parse_json() as [bool]; println(o); let f = "[1, true, 2.5]".parse_json() as [float]; println(f); let i = "[true, 2.0, 3]".parse_json() as [int]; println(i);`,
 	// any-objects
 	`let o = new { ? }; o.set("s", "x"); o.set("i", 1); o.set("f", 1.5); o.set("b", true); o.set("l", [1]); o.set("n", none); o.set("o", new { a: 1 }); o.set("r", 0..2); println(o.get_type("s"), o.get_type("i"), o.get_type("f"), o.get_type("b"), o.get_type("l"), o.get_type("n"), o.get_type("o"), o.get_type("r"));`,
 	`let o = new { ? }; try { println(o.get_type("missing")); } catch e { println("caught", e.message); }`,
